@@ -9,7 +9,7 @@
    the tag name "emph" as "em" (the `external` flag of hyperlinks is NOT erased any more:
    defect F10 is fixed by 8ee055e). *)
 From Pybtex Require Import Base.Prelude Base.PyChar Base.PyStr Model.RtTypes Model.RichText Model.Backends
-  Spec.Flat Spec.FlatOps Proofs.RichText Proofs.RichSlice Proofs.RichOps Proofs.RichEq Proofs.RichWf Proofs.RichObs Proofs.RichSplit Proofs.RichInj Proofs.RichNormal Proofs.RichHist Proofs.RichRender.
+  Spec.Flat Spec.FlatOps Proofs.RichText Proofs.RichSlice Proofs.RichOps Proofs.RichEq Proofs.RichWf Proofs.RichObs Proofs.RichSplit Proofs.RichInj Proofs.RichNormal Proofs.RichHist Proofs.RichHist2 Proofs.RichRender.
 
 (* len(text) is the number of (character, markup) pairs of the rendering *)
 Theorem len_flat : forall t, rlen t = length (flat t).
@@ -136,9 +136,51 @@ Proof. exact ops_compose_x. Qed.
 Print Assumptions ops_compose_partial.
 
 Theorem ops_compose_observers : forall e r, spec e = Some r -> exists v, eval_c e = Ok v /\
-  rlen v = length (snd r) /\ rstr v = flat_str (snd r).
-Proof. exact observe_compose. Qed.
+  rlen v = length (snd r) /\ rstr v = flat_str (snd r) /\ risalpha v = isalpha_flat (snd r).
+Proof. exact observe_compose_all. Qed.
 Print Assumptions ops_compose_observers.
+
+(* histories with split as a step: `hsem e r` (Spec/FlatOps.v) is the relational semantics of an
+   expression on plain pair sequences -- every clause is the string operation on the sequence; the
+   two stated exceptions are explicit clauses: an int index outside the bounds (F23: result
+   unspecified) and split, whose pieces are specified by their laws (`split_law`: they re-assemble
+   to the text / to the text minus its unprotected whitespace, a Protected is one piece; each piece
+   keeps the top-level markup) but not by the cut positions at part boundaries (F17s).  Every
+   successful evaluation of a covered expression (everything except abbreviate and split on a
+   string separator) is related by hsem to a text in normal form with exactly that top-level
+   markup and pair sequence; len / str / isalpha are those of the sequence. *)
+Theorem ops_compose : forall e v, covered e = true -> eval_c e = Ok v ->
+  exists r, hsem e r /\ good v /\ top_markup v = fst r /\ flat v = snd r.
+Proof. exact history_sound. Qed.
+Print Assumptions ops_compose.
+
+Theorem ops_compose_all_observers : forall e v, covered e = true -> eval_c e = Ok v -> exists r, hsem e r /\
+  rlen v = length (snd r) /\ rstr v = flat_str (snd r) /\ risalpha v = isalpha_flat (snd r).
+Proof. exact history_observers. Qed.
+Print Assumptions ops_compose_all_observers.
+
+(* the split step on its own: for a text in normal form, split() / split(delimiter_re) give texts in
+   normal form with the same top-level markup that satisfy split_law *)
+Theorem split_step : forall a r sep keep ps, good a /\ top_markup a = fst r /\ flat a = snd r ->
+  (sep = SepNone \/ sep = SepDelim) -> split_c a sep keep = Ok ps ->
+  split_law sep r (map flat ps) /\ Forall (fun p => good p /\ top_markup p = fst r) ps.
+Proof. exact step_split_clean. Qed.
+Print Assumptions split_step.
+
+(* split_ws_spec on the domain where it is exact by construction -- a String, and a text whose only
+   part is one String (no part boundary, hence no F17s): the pieces are exactly Python's
+   s.split() (Base/PyStr.split_ws: runs of the 29 whitespace code points of Base/PyChar.is_space
+   separate, no empty pieces), each rebuilt with the markup of the text.  Partial: the general
+   statement for texts whose whitespace runs lie inside single parts is not proved. *)
+Theorem split_ws_spec_string : forall s, split_c (RStr s) SepNone None = Ok (map RStr (split_ws s)).
+Proof. exact string_split_ws_lem. Qed.
+Print Assumptions split_ws_spec_string.
+
+Theorem split_ws_spec_partial : forall t s, is_multipart t = true -> (forall ps, t <> RProt ps) ->
+  parts_of t = [RStr s] ->
+  split_c t SepNone None = Ok (map (fun w => build (kind_of t) [RStr w]) (split_ws s)).
+Proof. exact one_part_split_ws_lem. Qed.
+Print Assumptions split_ws_spec_partial.
 
 (* isalpha on a constructed text is str.isalpha on its characters *)
 Theorem isalpha_flat_thm : forall t, good t -> risalpha t = isalpha_flat (flat t).
@@ -377,3 +419,12 @@ Example grouping_example :
   Forall good [RTag (s2l "em") [RStr (s2l "a")]; RText [RTag (s2l "em") [RStr (s2l "b")]; RStr (s2l "c")]]
   /\ Forall good [RTag (s2l "em") [RStr (s2l "ab")]; RStr (s2l "c")].
 Proof. split; repeat constructor. Qed.
+Example split_spec_example :
+  split_c (RTag (s2l "em") [RStr (s2l " a  b c ")]) SepNone None
+  = Ok [RTag (s2l "em") [RStr (s2l "a")]; RTag (s2l "em") [RStr (s2l "b")]; RTag (s2l "em") [RStr (s2l "c")]].
+Proof. vm_compute. reflexivity. Qed.
+Example history_split_example :
+  covered (EAddPeriod (ESplitNth (EText [EStr (s2l "a b"); ETag (s2l "em") [EStr (s2l "c d")]]) SepNone None 1) (s2l ".")) = true
+  /\ eval_c (EAddPeriod (ESplitNth (EText [EStr (s2l "a b"); ETag (s2l "em") [EStr (s2l "c d")]]) SepNone None 1) (s2l "."))
+     = Ok (RText [RStr (s2l "b"); RTag (s2l "em") [RStr (s2l "c")]; RStr (s2l ".")]).
+Proof. vm_compute. split; reflexivity. Qed.
